@@ -253,7 +253,10 @@ def run(ctx, prog):
                 regmap = {r['name']: '.'.join(r['path'][1:]) for r in regs if r['name'] is not None and r['path'] and r['path'][0] == 'this'}
                 E = terms.Evaluator(prog, dyn_class=cls, scalar=scalar, regmap=regmap, opaque=('register_var', 'register_vec'))
                 E.vecmodel = True
+                E.loop_new_members = True       # a member first assigned inside a summarised loop keeps a (summary) value
                 outs = E.run(iv)
+                from .. import loops as loopmod
+                whole_map_set = bool(E.trace.setvar_all) and all(any(t_[0] for t_ in loopmod.traversals(o_.events, 'varmap')) for o_ in outs)
                 setnames = [c[0] for c in E.trace.setvar_calls if c[2] == 'set_var']
                 for r in regs:
                     if r['kind'] != 'var':
@@ -276,7 +279,12 @@ def run(ctx, prog):
                             p1 = nf.nf(v)
                             if p1 == nf.const_poly(MARKER):
                                 bad = 'default of %s equals the uninitialised marker' % rname
-                    ctx.ob('C14.K4', '%s|registered-has-constant-default|%s|%s' % (short, rname, sc), bad is None, r['node'].get('l'), bad or '',
+                    if E.trace.setvar_all and not whole_map_set and bad is None:
+                        bad = 'INCONCLUSIVE'
+                    if bad is None and vals and all(v_[0] == 'call' and v_[1] == 'loop' for v_ in vals) and not whole_map_set:
+                        bad = 'INCONCLUSIVE'
+                    ctx.ob('C14.K4', '%s|registered-has-constant-default|%s|%s' % (short, rname, sc), (bad is None) if bad != 'INCONCLUSIVE' else None, r['node'].get('l'),
+                           (bad or '') if bad != 'INCONCLUSIVE' else 'the default is assigned inside a loop that is not a recognised traversal of the whole parameter map: not decided',
                            sample='%s.%s = %s' % (short, rname, terms.fmt(next(iter(vals)))[:40] if vals else '?'))
                 varnames = [r['name'] for r in regs if r['kind'] == 'var']
                 for nm in setnames:
